@@ -471,7 +471,7 @@ PevStep(cs, ev) ==
               ELSE cs
         checks == <<
           <<"C11", "C11.regions_after_event", SameList(ev.rl, regs1)>>,
-          <<"C13", "C13.event_notification", NotesOK(ev.notes, cs.regs, regs1)>>,
+          <<"C13", "C13.event_notification", NotesOK(ev.notes, cs.regs, regs1) /\ ev.nx>>,
           <<"C13", "C13.unique_ids", UniqueIds(ev.rl)>> >>
     IN  [c1 EXCEPT !.n = n, !.regs = regs1, !.v = Judge(cs.v, checks, 1, n, "")]
 
@@ -589,7 +589,9 @@ ApiStep(cs, ev, q) ==
           <<"C13", "C13.must_refuse", mustRefuse => ~accepted>>,
           <<"C13", "C13.effect", (accepted /\ ~mustRefuse) => SameList(ev.rl, expected)>>,
           <<"C13", "C13.unique_ids", UniqueIds(ev.rl) /\ freshId>>,
-          <<"C13", "C13.notification", NotesOK(ev.notes, before, ev.rl)>>,
+          \* ev.nx / ev.gx: the raw numbers of the payload equal the registry's (the lists here
+          \* are projected to native units)
+          <<"C13", "C13.notification", NotesOK(ev.notes, before, ev.rl) /\ ev.nx>>,
           <<"C12", "C12.delete_refused", (locked /\ ev.cmd = "delete") => ~accepted>>,
           <<"C12", "C12.refused_unchanged", (~accepted) => SameList(ev.rl, before)>>,
           <<"C12", "C12.monotone",
@@ -603,7 +605,7 @@ ApiStep(cs, ev, q) ==
 \* GET: the payload equals the list
 GetStep(cs, ev) ==
     [cs EXCEPT !.n = cs.n + 1,
-               !.v = Judge(cs.v, << <<"C13", "C13.get_payload", SameList(ev.rl, cs.regs)>> >>,
+               !.v = Judge(cs.v, << <<"C13", "C13.get_payload", SameList(ev.rl, cs.regs) /\ ev.gx>> >>,
                            1, cs.n + 1, "")]
 
 (***************************************************************************)
